@@ -346,4 +346,175 @@ theorem lexChar_star (st : St) (r : Bytes) :
 theorem lexOper_star (st : St) (r : Bytes) (h : st.rest = 0x2a :: r) : lexOper st = .ok (st.push .operMath 1) := by
   simp [lexOper, startsWith, h]
 
+
+/-! ### no token is empty -/
+
+/-- every stored token has a non-empty text -/
+def TokNE (acc : List Tok) : Prop := ∀ t ∈ acc, t.text ≠ []
+
+theorem take_ne {l : Bytes} {n : Nat} (hn : n ≥ 1) (hl : l ≠ []) : l.take n ≠ [] := by
+  cases l with
+  | nil => exact absurd rfl hl
+  | cons c r =>
+    obtain ⟨m, rfl⟩ : ∃ m, n = m + 1 := ⟨n - 1, by omega⟩
+    simp
+
+theorem ne_cons {acc : List Tok} {t : Tok} (ht : t.text ≠ []) (h : TokNE acc) : TokNE (t :: acc) := by
+  intro x hx
+  simp only [List.mem_cons] at hx
+  rcases hx with rfl | hx
+  · exact ht
+  · exact h x hx
+
+theorem ne_of_acc {st st' : St} {k : TK} {p n : Nat} (h : st'.acc = ⟨k, p, st.rest.take n⟩ :: st.acc) (hn : n ≥ 1)
+    (hr : st.rest ≠ []) (hi : TokNE st.acc) : TokNE st'.acc := by
+  rw [h]; exact ne_cons (take_ne hn hr) hi
+
+theorem reclassify_ne (st : St) (hi : TokNE st.acc) : TokNE (reclassify st).acc := by
+  unfold reclassify
+  split
+  · next t acc' ha =>
+    have ht : t.text ≠ [] := hi t (by rw [ha]; simp)
+    have hacc : TokNE acc' := fun x hx => hi x (by rw [ha]; simp [hx])
+    split
+    · exact ne_cons ht hacc
+    · split
+      · exact ne_cons ht hacc
+      · exact hi
+  · exact hi
+
+theorem nameTail_ne {st st' : St} {n : Nat} {b : Bool} (hn : n ≥ 1) (hr : st.rest ≠ []) (hi : TokNE st.acc)
+    (h : nameTail st n b = .ok st') : TokNE st'.acc := by
+  unfold nameTail at h
+  split at h
+  · split at h
+    · cases h; exact ne_of_acc (n := n + 2) rfl (by omega) hr hi
+    · split at h
+      · cases h
+      · next m _ => cases h; exact ne_of_acc (n := n + 1 + m) rfl (by omega) hr hi
+  · cases h; exact ne_of_acc (n := n) rfl hn hr hi
+
+theorem lexName_ne {st st' : St} (hi : TokNE st.acc) (h : lexName st = .ok st') : TokNE st'.acc := by
+  unfold lexName at h
+  split at h
+  · cases h
+  · next n hn =>
+    have hn1 := namePart_pos hn
+    have hne := namePart_nonempty hn
+    split at h
+    · next hsw =>
+      split at h
+      · simp only at h
+        split at h
+        · cases h
+        · next n2 hn2 =>
+          have hne2 : ((st.rest.drop n).drop 2) ≠ [] := namePart_nonempty hn2
+          have hd : st.rest.drop n ≠ [] := by
+            intro e; rw [e] at hne2; simp at hne2
+          have i1 : TokNE (st.push .axisname n).acc := ne_of_acc (n := n) rfl hn1 hne hi
+          have i2 : TokNE ((st.push .axisname n).push .dcolon 2).acc :=
+            ne_of_acc (st := st.push .axisname n) (n := 2) rfl (by omega) hd i1
+          exact nameTail_ne (namePart_pos hn2) hne2 i2 h
+      · cases h
+    · exact nameTail_ne hn1 hne hi h
+
+theorem lexOper_ne {st st' : St} (hr : st.rest ≠ []) (hi : TokNE st.acc) (h : lexOper st = .ok st') : TokNE st'.acc := by
+  unfold lexOper at h
+  repeat' split at h
+  all_goals first
+    | (cases h; exact ne_of_acc (n := 1) rfl (by omega) hr hi)
+    | (cases h; exact ne_of_acc (n := 2) rfl (by omega) hr hi)
+    | (cases h; exact ne_of_acc (n := 3) rfl (by omega) hr hi)
+    | cases h
+
+theorem lexChar4_ne {st st' : St} {c : UInt8} {r : Bytes} (hr : st.rest = c :: r) (hi : TokNE st.acc)
+    (h : lexChar4 st c r = .ok st') : TokNE st'.acc := by
+  have hne : st.rest ≠ [] := by rw [hr]; simp
+  unfold lexChar4 at h
+  repeat' split at h
+  all_goals first
+    | (cases h; exact ne_of_acc (n := 1) rfl (by omega) hne hi)
+    | (cases h; exact ne_of_acc (n := 2) rfl (by omega) hne hi)
+    | exact lexName_ne hi h
+    | exact lexOper_ne hne hi h
+    | cases h
+
+theorem lexChar3_ne {st st' : St} {c : UInt8} {r : Bytes} (hr : st.rest = c :: r) (hi : TokNE st.acc)
+    (h : lexChar3 st c r = .ok st') : TokNE st'.acc := by
+  have hne : st.rest ≠ [] := by rw [hr]; simp
+  unfold lexChar3 at h
+  split at h
+  · next hc =>
+    cases h
+    exact ne_of_acc (n := (Path.scanNum (c :: r)).1.length) rfl (scanNum_pos c r (by simpa using hc)) hne hi
+  · split at h
+    · split at h
+      · cases h
+      · next n hn =>
+        split at h
+        · cases h
+        · cases h
+          exact ne_cons (t := ⟨.varref, st.pos + 1, r.take n⟩) (take_ne (ncname_pos hn) (ncname_nonempty hn)) hi
+    · split at h
+      · split at h
+        · cases h; exact ne_of_acc (n := 2) rfl (by omega) hne hi
+        · cases h; exact ne_of_acc (n := 1) rfl (by omega) hne hi
+      · exact lexChar4_ne hr hi h
+
+theorem lexChar2_ne {st st' : St} {c : UInt8} {r : Bytes} (hr : st.rest = c :: r) (hi : TokNE st.acc)
+    (h : lexChar2 st c r = .ok st') : TokNE st'.acc := by
+  have hne : st.rest ≠ [] := by rw [hr]; simp
+  unfold lexChar2 at h
+  repeat' split at h
+  all_goals first
+    | (cases h; exact ne_of_acc (n := 1) rfl (by omega) hne hi)
+    | (cases h; exact ne_of_acc (n := 2) rfl (by omega) hne hi)
+    | exact lexChar3_ne hr hi h
+    | (cases h; exact ne_of_acc (n := _ + 2) rfl (by omega) hne hi)
+    | cases h
+
+theorem lexChar_ne {st st' : St} {c : UInt8} {r : Bytes} (hr : st.rest = c :: r) (hi : TokNE st.acc)
+    (h : lexChar st c r = .ok st') : TokNE st'.acc := by
+  have hne : st.rest ≠ [] := by rw [hr]; simp
+  unfold lexChar at h
+  repeat' split at h
+  all_goals first
+    | (cases h; exact ne_of_acc (st := reclassify st) (n := 1) rfl (by omega) (by rw [reclassify_rest]; exact hne)
+        (reclassify_ne st hi))
+    | (cases h; exact ne_of_acc (n := 1) rfl (by omega) hne hi)
+    | exact lexChar2_ne hr hi h
+    | cases h
+
+theorem lexStep_ne {st st' : St} (hi : TokNE st.acc) (h : lexStep st = .ok st') : TokNE st'.acc := by
+  unfold lexStep at h
+  split at h
+  · exact lexName_ne hi h
+  · next c r hr => exact lexChar_ne hr hi h
+
+theorem lexLoop_ne : ∀ (f : Nat) (st : St) (ts : List Tok), TokNE st.acc → lexLoop f st = .ok ts → ∀ t ∈ ts, t.text ≠ [] := by
+  intro f
+  induction f with
+  | zero => intro st ts _ h; cases h
+  | succ f ih =>
+    intro st ts hi h
+    unfold lexLoop at h
+    split at h
+    · cases h
+    · next st1 hs =>
+      have h1 : TokNE st1.skipWs.acc := by
+        have := lexStep_ne hi hs
+        simpa [St.skipWs] using this
+      simp only at h
+      split at h
+      · cases h
+        intro t ht
+        exact h1 t (by simpa using ht)
+      · exact ih _ ts h1 h
+
+theorem lex_tokens_nonempty (s : Bytes) (ts : List Tok) (h : lex s = .ok ts) : ∀ t ∈ ts, t.text ≠ [] := by
+  unfold lex at h
+  split at h
+  · cases h
+  · exact lexLoop_ne _ _ ts (by intro t ht; simp [St.skipWs] at ht) h
+
 end LyModel.XPath.LemmasLex
